@@ -7,12 +7,11 @@ From TeosModel.Gen Require Consts WireSpec.
 From Coq Require Import String.
 Local Open Scope string_scope.
 
-Module WS := WireSpec.
 
 (* ---------------- serialising / parsing a message of shape m ---------------- *)
-Definition to_json (m : msg) (v : mval) : json := enc_msg WS.STATUS m v.
-Definition of_json (m : msg) (j : json) : option mval := dec_msg WS.STATUS m j.
-Definition typedb (m : msg) (v : mval) : bool := typed_msgb WS.STATUS m v.
+Definition to_json (m : msg) (v : mval) : json := enc_msg WireSpec.STATUS m v.
+Definition of_json (m : msg) (j : json) : option mval := dec_msg WireSpec.STATUS m j.
+Definition typedb (m : msg) (v : mval) : bool := typed_msgb WireSpec.STATUS m v.
 
 (* ---------------- client -> tower ---------------- *)
 (* reqwest's RequestBuilder::json(&request): serde_json::to_vec of the prost struct *)
@@ -50,31 +49,35 @@ Definition check_nonempty_str (v : option val) : option Z :=
   end.
 Definition first_err (a b : option Z) : option Z := match a with Some x => Some x | None => b end.
 
-Definition s_user_id := s2b "user_id".
-Definition s_locator := s2b "locator".
-Definition s_signature := s2b "signature".
-Definition s_appointment := s2b "appointment".
+(* names, already evaluated to bytes (no Coq `string` value survives into the extracted model) *)
+Definition n_user_id : str := Eval vm_compute in s2b "user_id".
+Definition n_locator : str := Eval vm_compute in s2b "locator".
+Definition n_signature : str := Eval vm_compute in s2b "signature".
+Definition n_appointment : str := Eval vm_compute in s2b "appointment".
+Definition p_register : str := Eval vm_compute in s2b "/register".
+Definition p_add_appointment : str := Eval vm_compute in s2b "/add_appointment".
+Definition p_get_appointment : str := Eval vm_compute in s2b "/get_appointment".
 
 Definition handler_check (e : endpoint_spec) (req : mval) : option Z :=
   let m := ep_req e in
-  if str_eqb (ep_path e) (s2b "/register") then
-    check_sized (field_of m req s_user_id) Consts.USER_ID_LEN
-  else if str_eqb (ep_path e) (s2b "/add_appointment") then
+  if str_eqb (ep_path e) p_register then
+    check_sized (field_of m req n_user_id) Consts.USER_ID_LEN
+  else if str_eqb (ep_path e) p_add_appointment then
     first_err
-      (match field_of m req s_appointment with
+      (match field_of m req n_appointment with
        | Some (VSome (MVStruct avs)) =>
          match m with
-         | MStruct (FCons _ (KOptMsg am) _) => check_sized (field_of am (MVStruct avs) s_locator) Consts.LOCATOR_LEN
+         | MStruct (FCons _ (KOptMsg am) _) => check_sized (field_of am (MVStruct avs) n_locator) Consts.LOCATOR_LEN
          | _ => None
          end
        | _ => Some Consts.ERR_MISSING_FIELD
        end)
-      (check_nonempty_str (field_of m req s_signature))
-  else if str_eqb (ep_path e) (s2b "/get_appointment") then
-    first_err (check_sized (field_of m req s_locator) Consts.LOCATOR_LEN)
-              (check_nonempty_str (field_of m req s_signature))
+      (check_nonempty_str (field_of m req n_signature))
+  else if str_eqb (ep_path e) p_get_appointment then
+    first_err (check_sized (field_of m req n_locator) Consts.LOCATOR_LEN)
+              (check_nonempty_str (field_of m req n_signature))
   else
-    check_nonempty_str (field_of m req s_signature).
+    check_nonempty_str (field_of m req n_signature).
 
 (* what the router does with a POST whose Content-Length is len and whose body is the JSON value j
    (None = the body is not JSON at all) *)
@@ -99,17 +102,17 @@ Definition tower_http (e : endpoint_spec) (len : Z) (j : option json) : tower_re
 (* parse_grpc_response: Ok(r) -> reply::json(&r);  Err(status) -> reply::json(&ApiError{message, code}) *)
 Definition to_json_tower (e : endpoint_spec) (resp : mval) : json := to_json (ep_resp e) resp.
 Definition mk_api_error (message : str) (code : Z) : mval := MVStruct (vlist [VStr message; VNum code]).
-Definition to_json_err (err : mval) : json := to_json WS.TowerApiError err.
+Definition to_json_err (err : mval) : json := to_json WireSpec.TowerApiError err.
 
 Definition match_status (tonic_code : Z) : Z * Z :=
-  match assoc_Z tonic_code WS.MATCH_STATUS with Some r => r | None => WS.MATCH_STATUS_DEFAULT end.
+  match assoc_Z tonic_code WireSpec.MATCH_STATUS with Some r => r | None => WireSpec.MATCH_STATUS_DEFAULT end.
 (* the reply to a request the internal API refused with that tonic status *)
 Definition tower_error_reply (tonic_code : Z) (message : str) : Z * json :=
   let (http, code) := match_status tonic_code in (http, to_json_err (mk_api_error message code)).
 
 (* process_post_response::<ApiResponse<T>> or ::<T>, as the client calls it for that endpoint *)
 Definition of_json_client (e : endpoint_spec) (j : json) : creply :=
-  client_decode WS.STATUS (ep_client_wrapped e) WS.API_RESPONSE_ORDER (ep_resp e) WS.ClientApiError j.
+  client_decode WireSpec.STATUS (ep_client_wrapped e) WireSpec.API_RESPONSE_ORDER (ep_resp e) WireSpec.ClientApiError j.
 
 (* ---------------- the messages of the API, field by field ---------------- *)
 Definition mk_register_request (user_id : bytes) : mval := MVStruct (vlist [VBytes user_id]).
@@ -136,27 +139,27 @@ Definition mk_get_subscription_info_response (slots expiry : Z) (locators : list
 
 (* ---------------- the byte strings that get signed ---------------- *)
 Definition appointment_to_vec (locator blob : bytes) (to_self_delay : N) : bytes :=
-  layout_encode WS.APPOINTMENT_TO_VEC [LVBytes locator; LVBytes blob; LVNum to_self_delay].
+  layout_encode WireSpec.APPOINTMENT_TO_VEC [LVBytes locator; LVBytes blob; LVNum to_self_delay].
 Definition registration_receipt_to_vec (user_id : bytes) (slots start expiry : N) : bytes :=
-  layout_encode WS.REGISTRATION_RECEIPT_TO_VEC [LVBytes user_id; LVNum slots; LVNum start; LVNum expiry].
+  layout_encode WireSpec.REGISTRATION_RECEIPT_TO_VEC [LVBytes user_id; LVNum slots; LVNum start; LVNum expiry].
 Definition appointment_receipt_to_vec (user_signature : str) (start_block : N) : bytes :=
-  layout_encode WS.APPOINTMENT_RECEIPT_TO_VEC [LVBytes user_signature; LVNum start_block].
+  layout_encode WireSpec.APPOINTMENT_RECEIPT_TO_VEC [LVBytes user_signature; LVNum start_block].
 
 Definition get_appointment_msg_client (locator : bytes) : bytes :=
-  sign_msg_get_appointment WS.GET_APPOINTMENT_PREFIX_CLIENT locator.
+  sign_msg_get_appointment WireSpec.GET_APPOINTMENT_PREFIX_CLIENT locator.
 Definition get_appointment_msg_tower (locator : bytes) : bytes :=
-  sign_msg_get_appointment WS.GET_APPOINTMENT_PREFIX_TOWER locator.
+  sign_msg_get_appointment WireSpec.GET_APPOINTMENT_PREFIX_TOWER locator.
 
 (* ---------------- the documented format (README / API docs), pinned by hand ----------------
    The monitor of the check compares what travels on the wire with THIS table, and
    C16_format_as_documented states that the table generated from the code is this one. *)
-Definition Doc_Appointment : msg :=
+Definition Doc_Appointment : msg := Eval vm_compute in
   MStruct (flist [(s2b "locator", KHex); (s2b "encrypted_blob", KHex); (s2b "to_self_delay", KU32)]).
-Definition Doc_Tracker : msg :=
+Definition Doc_Tracker : msg := Eval vm_compute in
   MStruct (flist [(s2b "dispute_txid", KHexBE); (s2b "penalty_txid", KHexBE); (s2b "penalty_rawtx", KHex)]).
-Definition Doc_AppointmentData : msg := MFlatOneof (mlist [Doc_Appointment; Doc_Tracker]).
-Definition Doc_ApiError : msg := MStruct (flist [(s2b "error", KStr); (s2b "error_code", KU8)]).
-Definition Doc_ENDPOINTS : list (str * msg * msg * Z) :=
+Definition Doc_AppointmentData : msg := Eval vm_compute in MFlatOneof (mlist [Doc_Appointment; Doc_Tracker]).
+Definition Doc_ApiError : msg := Eval vm_compute in MStruct (flist [(s2b "error", KStr); (s2b "error_code", KU8)]).
+Definition Doc_ENDPOINTS : list (str * msg * msg * Z) := Eval vm_compute in
   [ (s2b "/register",
      MStruct (flist [(s2b "user_id", KHex)]),
      MStruct (flist [(s2b "user_id", KHex); (s2b "available_slots", KU32); (s2b "subscription_start", KU32);
@@ -175,9 +178,9 @@ Definition Doc_ENDPOINTS : list (str * msg * msg * Z) :=
      MStruct (flist [(s2b "signature", KStr)]),
      MStruct (flist [(s2b "available_slots", KU32); (s2b "subscription_expiry", KU32); (s2b "locators", KVecHex)]),
      127%Z) ].
-Definition Doc_STATUS_NAMES : list (Z * str) :=
+Definition Doc_STATUS_NAMES : list (Z * str) := Eval vm_compute in
   [(0%Z, s2b "not_found"); (1%Z, s2b "being_watched"); (2%Z, s2b "dispute_responded")].
-Definition Doc_STATUS : status_table :=
+Definition Doc_STATUS : status_table := Eval vm_compute in
   {| st_variants := [(s2b "NotFound", 0%Z); (s2b "BeingWatched", 1%Z); (s2b "DisputeResponded", 2%Z)];
      st_from_i32 := [(1%Z, s2b "BeingWatched"); (2%Z, s2b "DisputeResponded")];
      st_from_i32_default := s2b "NotFound";
@@ -185,14 +188,47 @@ Definition Doc_STATUS : status_table :=
                      (s2b "not_found", s2b "NotFound")];
      st_display := [(s2b "BeingWatched", s2b "being_watched"); (s2b "DisputeResponded", s2b "dispute_responded");
                     (s2b "NotFound", s2b "not_found")] |}.
-Definition Doc_APPOINTMENT_TO_VEC : layout :=
+Definition Doc_APPOINTMENT_TO_VEC : layout := Eval vm_compute in
   [(s2b "locator", LFixed 16); (s2b "encrypted_blob", LVar); (s2b "to_self_delay", LBE32)].
-Definition Doc_REGISTRATION_RECEIPT_TO_VEC : layout :=
+Definition Doc_REGISTRATION_RECEIPT_TO_VEC : layout := Eval vm_compute in
   [(s2b "user_id", LFixed 33); (s2b "available_slots", LBE32); (s2b "subscription_start", LBE32);
    (s2b "subscription_expiry", LBE32)].
-Definition Doc_APPOINTMENT_RECEIPT_TO_VEC : layout := [(s2b "user_signature", LVar); (s2b "start_block", LBE32)].
+Definition Doc_APPOINTMENT_RECEIPT_TO_VEC : layout := Eval vm_compute in [(s2b "user_signature", LVar); (s2b "start_block", LBE32)].
 
 Definition doc_endpoint (e : endpoint_spec) : str * msg * msg * Z := (ep_path e, ep_req e, ep_resp e, ep_cap e).
 
 (* the documented emission of a request / reply / error, used by the monitor *)
 Definition doc_to_json (m : msg) (v : mval) : json := enc_msg Doc_STATUS m v.
+
+(* ---------------- entry points of the OCaml driver (coq/extraction/drv_wire.ml) ---------------- *)
+Definition wire_messages : list (str * msg) := Eval vm_compute in
+  (WireSpec.MESSAGES ++ [(s2b "TowerApiError", WireSpec.TowerApiError); (s2b "ClientApiError", WireSpec.ClientApiError)])%list.
+Definition wire_endpoints : list endpoint_spec := WireSpec.ENDPOINTS.
+Definition wire_enc : msg -> mval -> json := to_json.
+Definition wire_dec : msg -> json -> option mval := of_json.
+Definition wire_typed : msg -> mval -> bool := typedb.
+Definition wire_print : json -> str := json_print.
+Definition wire_doc_enc : msg -> mval -> json := doc_to_json.
+Definition wire_doc_endpoints : list (str * msg * msg * Z) := Doc_ENDPOINTS.
+Definition wire_doc_api_error : msg := Doc_ApiError.
+Definition wire_tower_api_error : msg := WireSpec.TowerApiError.
+Definition wire_tower_http : endpoint_spec -> Z -> option json -> tower_result := tower_http.
+Definition wire_tower_error_reply : Z -> str -> Z * json := tower_error_reply.
+Definition wire_client_decode : endpoint_spec -> json -> creply := of_json_client.
+Definition wire_hex_encode : bytes -> str := hex_encode.
+Definition wire_hex_decode : str -> option bytes := hex_decode.
+Definition wire_behex_encode : bytes -> str := behex_encode.
+Definition wire_behex_decode : str -> option bytes := behex_decode.
+Definition wire_appointment_to_vec := appointment_to_vec.
+Definition wire_registration_receipt_to_vec := registration_receipt_to_vec.
+Definition wire_appointment_receipt_to_vec := appointment_receipt_to_vec.
+Definition wire_doc_appointment_to_vec (l b : bytes) (t : N) : bytes :=
+  layout_encode Doc_APPOINTMENT_TO_VEC [LVBytes l; LVBytes b; LVNum t].
+Definition wire_doc_registration_receipt_to_vec (u : bytes) (a s e : N) : bytes :=
+  layout_encode Doc_REGISTRATION_RECEIPT_TO_VEC [LVBytes u; LVNum a; LVNum s; LVNum e].
+Definition wire_doc_appointment_receipt_to_vec (s : str) (b : N) : bytes :=
+  layout_encode Doc_APPOINTMENT_RECEIPT_TO_VEC [LVBytes s; LVNum b].
+Definition wire_get_appointment_msg_client := get_appointment_msg_client.
+Definition wire_get_appointment_msg_tower := get_appointment_msg_tower.
+Definition doc_get_appointment_prefix : str := Eval vm_compute in s2b "get appointment ".
+Definition wire_doc_get_appointment_msg (l : bytes) : bytes := (doc_get_appointment_prefix ++ hex_encode l)%list.
